@@ -102,6 +102,26 @@ func buildExchanges(t *sim.Tape, v int, overlimit bool) []exchange {
 		ex.resp = mkResp()
 		fillObject(t, ex.resp, 0, uint64(i*2+1))
 		fixup(ex.resp)
+		if t.Chance(1, 5) {
+			// bulk members at sizes around the codecs' internal step sizes
+			n := pick(t, 65535, 65536, 65537, 65600, 131072+5, 3*65536+4096, 1<<20)
+			switch r := ex.resp.(type) {
+			case *rhp3.RPCExecuteProgramResponse:
+				r.Output = sim.HashBytes("bulk", uint64(i), 1, n)
+				fixup(r)
+				ex.name += "(bulk output)"
+			case *rhp2.RPCReadResponse:
+				r.Data = sim.HashBytes("bulk", uint64(i), 2, n)
+				ex.name += "(bulk data)"
+			case *rhp3.RPCUpdatePriceTableResponse:
+				r.PriceTableJSON = sim.HashBytes("bulk", uint64(i), 3, n)
+			}
+			if r, ok := ex.req.(*rhp3.RPCExecuteProgramRequest); ok {
+				r.ProgramData = sim.HashBytes("bulk", uint64(i), 4, n)
+				ex.reqEnc = encP(ex.req)
+				ex.name += "(bulk program data)"
+			}
+		}
 		if v == 2 && t.Chance(1, 4) {
 			// message sizes around the transport's minimum frame size (padding boundary)
 			ex.name, ex.id, ex.req, ex.reqEnc = "Settings(padding boundary)", rhp2.RPCSettingsID, nil, nil
